@@ -134,4 +134,4 @@ def cases(draw):
 
 
 def subs(tier):
-    return [Sub("history", cases(), run_case, quick=1500, thorough=40000)]
+    return [Sub("history", cases(), run_case, quick=7500, thorough=40000)]
